@@ -266,7 +266,23 @@ def enc_arg(a, pr):
     return dict(k='v', v=T.val(a))
 
 
+_ENC_FD = {}
+
+
 def enc_fd(fd, fid):
+    """the definition as the model reads it; cached per definition object (definitions are not mutated by the
+    harness after they were built)"""
+    c = _ENC_FD.get(id(fd))
+    if c is not None and c[0] is fd and c[1] == fid:
+        return c[2]
+    if len(_ENC_FD) > 20000:
+        _ENC_FD.clear()
+    d = _enc_fd(fd, fid)
+    _ENC_FD[id(fd)] = (fd, fid, d)
+    return d
+
+
+def _enc_fd(fd, fid):
     ps = []
     for key, p in fd.parameters.items():
         ps.append({'key': key, 'name': p.name, 'alias': p.alias or None, 'pos': p.position,
@@ -554,8 +570,8 @@ def table_diff(fd, exp):
     for what in ('name', 'is_function', 'is_method', 'no_kwargs'):
         if getattr(fd, what) != getattr(exp, what):
             out.append('%s: real %r, documented %r' % (what, getattr(fd, what), getattr(exp, what)))
-    if dict(fd.meta) != dict(exp.meta):
-        out.append('meta: real %r, documented %r' % (dict(fd.meta), dict(exp.meta)))
+    if any(k not in fd.meta or fd.meta[k] != v for k, v in exp.meta.items()):     # declared entries are there
+        out.append('meta: real %r, declared by @specs.meta %r' % (dict(fd.meta), dict(exp.meta)))
     if set(fd.parameters) != set(exp.parameters):
         out.append('parameter keys: real %r, documented %r' % (sorted(fd.parameters), sorted(exp.parameters)))
         return out
@@ -649,26 +665,46 @@ class Family:
         self.layer_ctx = [None] * n     # the context that makes up the layer
         self.first_member = {}
         self.members = [None] * n       # the plain contexts behind it
+        # the same construction as the model is told it (the tick / root layers below hold no overload of the name)
+        self.msteps = []
+        self.handle = {}                # id(context object) -> handle
+        prev = None
+
+        def new(step, obj):
+            self.msteps.append(step)
+            self.handle[id(obj)] = len(self.handle)
+            return obj
+
+        def plain(parent_obj, parent_handle):
+            c = cls(parent_obj, convention=ROOT.convention)
+            return new(dict(k='root') if parent_handle is None else dict(k='child', i=parent_handle), c)
         for li in reversed(range(n)):
             shape = layers[li].get('shape') or {}
             k = shape.get('k', 'plain')
+            ph = None if prev is None else self.handle[id(prev)]
             if k == 'linked':
-                target = cls(convention=ROOT.convention)
-                ctx = contexts.LinkedContext(ctx, target)
+                target = new(dict(k='root'), cls(convention=ROOT.convention))
+                ctx = new(dict(k='linked', p=ph, t=self.handle[id(target)]), contexts.LinkedContext(ctx, target))
                 self.members[li] = [target]
             elif k == 'multi':
                 nm = max(1, shape.get('n', 2))
-                ms = [cls(ctx if (j == 0 or shape.get('mparents') == 'all') else None, convention=ROOT.convention)
-                      for j in range(nm)]
+                ms = []
+                for j in range(nm):
+                    if j == 0 or shape.get('mparents') == 'all':
+                        ms.append(plain(ctx, ph))
+                    else:
+                        ms.append(new(dict(k='root'), cls(convention=ROOT.convention)))
                 order = [j for j in shape.get('morder', range(nm)) if j < nm]
                 order += [j for j in range(nm) if j not in order]
-                ctx = contexts.MultiContext([ms[j] for j in order])
+                ctx = new(dict(k='multi', ms=[self.handle[id(ms[j])] for j in order]),
+                          contexts.MultiContext([ms[j] for j in order]))
                 self.members[li] = ms
                 self.first_member[li] = order[0]
             else:
-                ctx = cls(ctx)
+                ctx = plain(ctx, ph)
                 self.members[li] = [ctx]
             self.layer_ctx[li] = ctx
+            prev = ctx
         self.ctxs = self.layer_ctx
         self.ctx = ctx
         self.held = [[] for _ in layers]
@@ -722,6 +758,7 @@ class Family:
         self.fds[fid] = fd
         self.exp[fid] = exp
         self.held[li].append(fid)
+        self.msteps.append(dict(k='reg', i=self.handle[id(ctx)], name=exp.name, fid=fid, x=x))
         self.member_of[fid] = mi
         self.excl[li] = self.excl[li] or x
         d = table_diff(fd, exp) if not (known and fd is reuse.fds.get(fid)) else None
@@ -746,6 +783,13 @@ class Family:
                     fs.append(enc_fd(self.fds[o['id']], o['id']))
             out.append(dict(fs=fs, x=self.layer_exclusive(li)))
         return out
+
+    def model_hist(self, calls):
+        """the construction, the registrations in the order they were made and the calls from the nearest
+        context, as a history for the model (`Yaql.ResolveCtx.run` / `resolveIn`)"""
+        top = self.handle[id(self.ctx)]
+        return dict(defs=[enc_fd(fd, i) for i, fd in sorted(self.fds.items())],
+                    steps=self.msteps + [dict(k='call', i=top, name='f', call=c.enc()) for c in calls])
 
     def set_order(self, layer_index, fids):
         """the enumeration order of a layer: every plain context behind it enumerates its own overloads in the
